@@ -123,6 +123,9 @@ func (g *Gen) stmt(o *out, d int) {
 	if g.on("slices") {
 		w[17] = 3
 	}
+	if g.on("idioms") {
+		w[18] = 4
+	}
 	switch g.pick("stmt", w...) {
 	case 0:
 		g.declStmt(o, d)
@@ -163,6 +166,8 @@ func (g *Gen) stmt(o *out, d int) {
 		g.mapStmt(o, d)
 	case 17:
 		g.sliceStmt(o, d)
+	case 18:
+		g.idiomStmt(o, d)
 	}
 }
 
@@ -622,11 +627,29 @@ func (g *Gen) rangeStmt(o *out, d int) {
 		g.use("range-map-sorted")
 	case KString:
 		i, r := g.name("i"), g.name("r")
-		g.declare(&Var{Name: i, T: g.U.Int, RO: true})
-		g.declare(&Var{Name: r, T: g.U.all["int32"], RO: true})
-		g.withLoop(o, fmt.Sprintf("for %s, %s := range %s", i, r, c.code), 8, d, func(b *out) {
-			b.line("fmt.Println(\"r\", %s, %s)", i, r)
-		}, true)
+		switch g.pick("rsform", 5, 2, 2, 1) {
+		case 0:
+			g.declare(&Var{Name: i, T: g.U.Int, RO: true})
+			g.declare(&Var{Name: r, T: g.U.all["int32"], RO: true})
+			g.withLoop(o, fmt.Sprintf("for %s, %s := range %s", i, r, c.code), 8, d, func(b *out) {
+				b.line("fmt.Println(\"r\", %s, %s)", i, r)
+			}, true)
+		case 1:
+			// key only: the byte position of each rune
+			g.declare(&Var{Name: i, T: g.U.Int, RO: true})
+			g.withLoop(o, fmt.Sprintf("for %s := range %s", i, c.code), 8, d, func(b *out) {
+				b.line("fmt.Println(\"ri\", %s)", i)
+			}, true)
+		case 2:
+			g.declare(&Var{Name: r, T: g.U.all["int32"], RO: true})
+			g.withLoop(o, fmt.Sprintf("for _, %s := range %s", r, c.code), 8, d, func(b *out) {
+				b.line("fmt.Println(\"rr\", %s)", r)
+			}, true)
+		default:
+			g.withLoop(o, fmt.Sprintf("for range %s", c.code), 8, d, func(b *out) {
+				b.line("fmt.Println(\"rn\")")
+			}, true)
+		}
 		g.use("range-string")
 	default:
 		i, e := g.name("i"), g.name("e")
